@@ -121,8 +121,10 @@ def build(w, s):
                 vc = n["name"] + "_vol"
                 wn.add_curve(vc, "VOLUME", [tuple(p) for p in n["vcurve"]])
             # "late_elev": the tank is created at another elevation, which is then corrected through the attribute
+            # "late_diam" (scenario flag): a cylindrical tank is created wider and gets its diameter through the attribute after
+            # every control exists
             wn.add_tank(n["name"], elevation=n["elev"] - (7.5 if n.get("late_elev") else 0.0), init_level=n["init"], min_level=n["minl"],
-                        max_level=n["maxl"], diameter=n["diam"], min_vol=0.0, vol_curve=vc)
+                        max_level=n["maxl"], diameter=n["diam"] * (1.5 if s.get("late_diam") and not vc else 1.0), min_vol=0.0, vol_curve=vc)
             if n.get("late_elev"):
                 wn.get_node(n["name"]).elevation = n["elev"]
         else:
@@ -178,6 +180,10 @@ def build(w, s):
             act = C.ControlAction(link, "setting", c["val"])
         cond = C.ValueCondition(wn.get_node(c["node"]), c["attr"], c["rel"], c["thr"])
         wn.add_control("cctl%d" % i, C.Control(cond, act, priority=c["prio"]))
+    if s.get("late_diam"):
+        for n in s["nodes"]:
+            if n["type"] == "T" and not n["vcurve"]:
+                wn.get_node(n["name"]).diameter = n["diam"]
     return wn
 
 
